@@ -186,3 +186,10 @@ def run(pid, tier, fn, level="other"):
         print("ANALYSIS-INCOMPLETE property=%s: %s" % (pid, e))
         print("(no verdict: the check could not analyse this tree; exit 2)")
         return 2
+    except Exception as e:      # an engine failure is never a verdict about the code
+        import traceback
+        tb = traceback.format_exc().splitlines()
+        print("ANALYSIS-INCOMPLETE property=%s: internal error in the rule engine: %s: %s" % (pid, type(e).__name__, e))
+        print("\n".join(tb[-6:]))
+        print("(no verdict; exit 2)")
+        return 2
